@@ -8,6 +8,9 @@ RULES = {
 
 def run(ctx):
     astar_checks.run_family(ctx, 'c01', 'P_C01')
+    # the premise of the property about the shipped grammars: one head direction (theorems over the translated grammars)
+    ctx.build(['P_C01_grammars.vo'], gens=('tables', 'grammar', 'jaroots'))
+    ctx.theorems('P_C01_grammars')
     ctx.trusted += ['implementation-level model coq/AStarImpl.v (tied to parsing.h by trace validation: every pop, its in/out score, span, head, the status, the goal derivations and scores of each run are accepted by the model inside coqc)',
                     'harness/driver.cpp + depccg_verif_rt.py (ctypes bridge, compiled against the repository header on every run) and the DEPCCG_VERIF pop hook',
                     'float32 arithmetic is exact on the dyadic score grid used (scores k/8, |k| small); rounding on arbitrary reals is not modelled']
